@@ -196,7 +196,48 @@ Fixpoint core_expr (e : expr) : bool :=
   | EIf _ c t o => core_expr c && core_expr t && match o with Some x => core_expr x | None => true end
   | EAssert _ (MkAssert _ c m) body =>
       core_expr c && match m with Some x => core_expr x | None => true end && core_expr body
-  | _ => false
+  | EObject _ o => core_obj o
+  | EObjExt _ x o _ => core_expr x && core_obj o
+  end
+
+with core_obj (o : obj_inside) : bool :=
+  match o with
+  | OMembers ms => forallb core_member ms
+  | OComp l1 name _ body l2 specs =>
+      forallb core_bind l1 && core_expr name && core_expr body && forallb core_bind l2 &&
+      specs_ok specs && forallb (fun c => match c with CFor _ y | CIf y => core_expr y end) specs
+  end
+
+with core_member (m : member) : bool :=
+  match m with
+  | MLocal b => core_bind b
+  | MAssert (MkAssert _ c m') => core_expr c && match m' with Some x => core_expr x | None => true end
+  | MField f => core_field f
+  end
+
+with core_field (f : field) : bool :=
+  match f with
+  | FValue n _ _ v => core_fname n && core_expr v
+  | FFunc n ps _ _ v =>
+      core_fname n &&
+      forallb (fun p => match p with MkParam _ d => match d with Some y => core_expr y | None => true end end) ps &&
+      core_expr v
+  end
+
+with core_fname (n : field_name) : bool :=
+  match n with
+  | FnIdent _ | FnString _ _ => true
+  | FnExpr e _ => core_expr e
+  end
+
+with core_bind (b : bind) : bool :=
+  match b with
+  | MkBind _ ps v =>
+      match ps with
+      | Some (l, _) => forallb (fun p => match p with MkParam _ d =>
+                         match d with Some y => core_expr y | None => true end end) l
+      | None => true
+      end && core_expr v
   end.
 
 (* the first printed token of a covered tree starts an expression *)
@@ -846,680 +887,3 @@ Section Suffix.
   Qed.
 End Suffix.
 
-Lemma pl_item0_comp pexpr lf f e stk c t specs' t2 (a : expr) t' :
-  is_simple SComma c = false ->
-  run (maybe_parse_comp_spec pexpr (S lf)) (c :: t) (Some specs') (sim SRightBracket :: t2) -> t2 <> [] ->
-  run (pe_loop T pexpr (S lf) f (StParsed (EArrayComp sp0 e specs')) stk) t2 a t' ->
-  run (pe_loop T pexpr (S lf) (S f) (StParsed e) (SiArrayItem0 sp0 :: stk)) (c :: t) a t'.
-Proof.
-  intros Hc Hs Ht H. cbn [pe_loop].
-  eapply run_bind; [apply run_eat_miss; exact Hc|].
-  eapply run_orelse_hit; [exact Hs|].
-  eapply run_bind; [apply run_expect_hit; [reflexivity|exact Ht]|].
-  eapply run_bind; [apply run_mk_span0|]. exact H.
-Qed.
-
-Lemma arg_head a : acore a = true -> exists c r, print_arg a = c :: r /\ is_simple SRightParen c = false.
-Proof.
-  destruct a as [y|name y]; cbn [acore print_arg]; intros H.
-  - destruct (core_head y H) as (c & r & E & _ & Hst). exists c, r. split; [exact E|].
-    apply starter_not; [exact Hst|reflexivity].
-  - eexists; eexists; split; reflexivity.
-Qed.
-
-Definition arg_ok (L : nat) (a : arg) : Prop := acore a = true /\ wp_arg a = true /\ (alen a < L)%nat.
-
-Lemma run_args_loop pexpr L (Hp : pexpr_ok pexpr L) : forall more a0 acc fuel rest,
-  (List.length more < fuel)%nat -> Forall (arg_ok L) (a0 :: more) -> rest <> [] ->
-  run (args_loop pexpr fuel acc)
-      (print_arg a0 ++ flat_map (fun y => comma ++ print_arg y) more ++ sim SRightParen :: rest)
-      (acc ++ map strip_arg (a0 :: more), sp0) rest.
-Proof.
-  induction more as [|a1 more IH]; intros a0 acc fuel rest Hf Hall Hr;
-    destruct fuel as [|f]; try (cbn in Hf; lia); cbn [args_loop flat_map app].
-  - inversion Hall as [|? ? (Hc & Hw & Hl) _]; subst.
-    eapply run_bind; [apply (run_arg pexpr L Hp); [exact Hc|exact Hw|exact Hl|reflexivity|reflexivity|reflexivity]|].
-    eapply run_orelse_hit; [apply run_eat_hit; [reflexivity|exact Hr]|]. apply run_ret.
-  - inversion Hall as [|? ? (Hc & Hw & Hl) Hall']; subst.
-    unfold comma at 1. rewrite <- !app_assoc. cbn [app].
-    eapply run_bind; [apply (run_arg pexpr L Hp); [exact Hc|exact Hw|exact Hl|reflexivity|reflexivity|reflexivity]|].
-    eapply run_orelse_miss; [apply run_eat_miss; reflexivity|].
-    eapply run_orelse_hit; [apply run_eat_hit; [reflexivity|auto with rt]|].
-    inversion Hall' as [|? ? (Hc1 & _) _]; subst.
-    destruct (arg_head a1 Hc1) as (c & r & E & Hh).
-    eapply run_orelse_miss; [eapply run_eat_miss_app; [exact E|exact Hh]|].
-    replace (acc ++ map strip_arg (a0 :: a1 :: more)) with ((acc ++ [strip_arg a0]) ++ map strip_arg (a1 :: more))
-      by (rewrite <- app_assoc; reflexivity).
-    apply IH; [cbn in Hf; lia|exact Hall'|exact Hr].
-Qed.
-
-(* suffix chains: from the unary level into the suffix loop of parse_suffix_expr *)
-Definition nots (l : list token) : Prop :=
-  match l with c :: _ => is_simple KTailstrict c = false | [] => True end.
-
-Definition Sform (e : expr) (c m : nat) : Prop :=
-  forall pexpr lf f stk rest R t' (X : expr) tf,
-    pexpr_ok pexpr (List.length (print_expr e)) -> (List.length (print_expr e) <= lf)%nat -> rest <> [] ->
-    nots rest ->
-    run (suffix_loop pexpr (S lf) (S lf - m) (strip_spans e)) rest R t' ->
-    run (pe_loop T pexpr (S lf) f (StParsed R) stk) t' X tf ->
-    run (pe_loop T pexpr (S lf) (c + f) StUnary stk) (print_expr e ++ rest) X tf.
-
-Lemma app_eq_cons_l {A} (l : list A) c r t : l = c :: r -> l ++ t = c :: (r ++ t).
-Proof. intros ->. reflexivity. Qed.
-
-Definition item_ok (n : nat) (x : expr) : Prop :=
-  (esize x < n)%nat /\ core_expr x = true /\ wpx 0 true x = true.
-Definition items_toks (x1 : expr) (more : list expr) : list token :=
-  print_expr x1 ++ flat_map (fun y => comma ++ print_expr y) more.
-
-Lemma array_items n
-  (IH : forall y, (esize y < n)%nat -> core_expr y = true -> forall k last, (k <= 10)%nat ->
-        wpx k last y = true -> exists c, (c <= 40 * List.length (print_expr y))%nat /\ Bform k last y c) :
-  forall more x1, Forall (item_ok n) (x1 :: more) ->
-  exists c, (c <= 40 * (List.length (items_toks x1 more) + 1))%nat /\
-    forall pexpr lf Lb f stk acc rest (X : expr) tf,
-      pexpr_ok pexpr Lb -> (Lb <= lf)%nat -> (List.length (items_toks x1 more) <= Lb)%nat -> rest <> [] ->
-      run (pe_loop T pexpr (S lf) f (StParsed (EArray sp0 (acc ++ map strip_spans (x1 :: more)))) stk) rest X tf ->
-      run (pe_loop T pexpr (S lf) (c + f) (init_state T) (SiArrayItemN sp0 acc :: stk))
-          (items_toks x1 more ++ sim SRightBracket :: rest) X tf.
-Proof.
-  induction more as [|x2 more IHm]; intros x1 Hall;
-    inversion Hall as [|? ? (Hs1 & Hc1 & Hw1) Hall']; subst;
-    destruct (IH x1 Hs1 Hc1 0%nat true ltac:(lia) Hw1) as (c1 & Hb1 & HB1).
-  - exists (c1 + 2)%nat. unfold items_toks. cbn [flat_map]. rewrite app_nil_r. split; [lia|].
-    intros pexpr lf Lb f stk acc rest X tf Hp Hlf HL Hr H.
-    fuel_as (c1 + (2 + f))%nat. change (init_state T) with (enter 0).
-    apply HB1; [eapply pexpr_ok_mono; [exact Hp|exact HL]|lia|reflexivity|intros _; reflexivity|].
-    change (exit_ 0 (strip_spans x1)) with (StBinaryRhs (kind 0) (strip_spans x1)). cbn [Nat.add].
-    apply pl_rhs_none; [reflexivity|]. apply pl_itemN_last; [exact Hr|exact H].
-  - destruct (IHm x2 Hall') as (c' & Hb' & HB').
-    inversion Hall' as [|? ? (_ & Hc2 & _) _]; subst.
-    destruct (core_head x2 Hc2) as (ch & rh & Eh & _ & Hst).
-    exists (c1 + (2 + c'))%nat. unfold items_toks in *. cbn [flat_map]. unfold comma at 1 3.
-    split; [revert Hb'; repeat (rewrite app_length; cbn [List.length]); lia|].
-    intros pexpr lf Lb f stk acc rest X tf Hp Hlf HL Hr H.
-    assert (HL1 : (List.length (print_expr x1) <= Lb)%nat) by (revert HL; repeat (rewrite app_length; cbn [List.length]); lia).
-    assert (HL2 : (List.length (print_expr x2 ++ flat_map (fun y => comma ++ print_expr y) more) <= Lb)%nat)
-      by (revert HL; repeat (rewrite app_length; cbn [List.length]); lia).
-    norm_app.
-    fuel_as (c1 + (2 + (c' + f)))%nat. change (init_state T) with (enter 0).
-    apply HB1; [eapply pexpr_ok_mono; [exact Hp|exact HL1]|lia|reflexivity|intros _; reflexivity|].
-    change (exit_ 0 (strip_spans x1)) with (StBinaryRhs (kind 0) (strip_spans x1)). cbn [Nat.add].
-    apply pl_rhs_none; [reflexivity|].
-    rewrite app_assoc.
-    eapply pl_itemN_more'; [apply app_eq_cons_l; exact Eh|exact Hst|].
-    apply (HB' pexpr lf Lb); [exact Hp|exact Hlf|exact HL2|exact Hr|].
-    rewrite <- app_assoc. exact H.
-Qed.
-
-Lemma sform n
-  (IH : forall y, (esize y < n)%nat -> core_expr y = true -> forall k last, (k <= 10)%nat ->
-        wpx k last y = true -> exists c, (c <= 40 * List.length (print_expr y))%nat /\ Bform k last y c) :
-  forall e, (esize e <= n)%nat -> core_expr e = true -> wpx lv_postfix false e = true ->
-  exists c m, (c + 30 <= 40 * List.length (print_expr e))%nat /\ (m <= List.length (print_expr e))%nat /\ Sform e c m.
-Proof.
-  induction e; intros Hsz Hcore Hwp; cbn [core_expr] in Hcore; try discriminate;
-    try (cbn [wpx andb] in Hwp; discriminate);
-    try (cbn [wpx] in Hwp; destruct e3; cbn in Hwp; discriminate);
-    try (lazymatch goal with |- exists c m, _ /\ _ /\ Sform ?E c m =>
-         exists 3%nat, 0%nat; split; [cbn [print_expr List.length]; lia|]; split; [lia|];
-         intros pexpr lf f stk rest R t' X tf _ _ Hr _ H1 H2; cbn [print_expr app Nat.add];
-         apply pl_unary_miss; [try destruct b; reflexivity|];
-         eapply (pl_primary_atom pexpr lf _ E); [reflexivity|exact Hr|];
-         rewrite Nat.sub_0_r in H1; eapply pl_parsed_suffix_gen; [exact H1|exact H2] end).
-  - (* EParen *)
-    cbn [wpx] in Hwp. cbn [esize] in Hsz.
-    destruct (IH e ltac:(lia) Hcore 0%nat true ltac:(lia) Hwp) as (cx & Hbx & Hx).
-    exists (S (S (cx + 3))), 0%nat. split; [len_tac|]. split; [lia|].
-    intros pexpr lf f stk rest R t' X tf Hp Hlf Hr _ H1 H2.
-    cbn [print_expr strip_spans app]. rewrite <- app_assoc. cbn [app Nat.add].
-    apply pl_unary_miss; [reflexivity|].
-    apply pl_primary_paren; [auto with rt|].
-    change (init_state T) with (enter 0).
-    fuel_as (cx + (3 + f))%nat.
-    apply Hx; [eapply pexpr_ok_mono; [exact Hp|len_tac]| revert Hlf; len_tac |reflexivity|intros _; reflexivity|].
-    change (exit_ 0 (strip_spans e)) with (StBinaryRhs (kind 0) (strip_spans e)). cbn [Nat.add].
-    apply pl_rhs_none; [reflexivity|].
-    apply pl_parsed_paren; [exact Hr|].
-    rewrite Nat.sub_0_r in H1. eapply pl_parsed_suffix_gen; [exact H1|exact H2].
-  - (* EArray *)
-    cbn [wpx] in Hwp. cbn [esize] in Hsz.
-    assert (Hall : Forall (item_ok n) items).
-    { apply Forall_forall. intros x Hin. rewrite forallb_forall in Hcore, Hwp.
-      pose proof (lsum_in esize items x Hin). split; [lia|]. split; [apply Hcore|apply Hwp]; exact Hin. }
-    destruct items as [|x1 more].
-    + exists 3%nat, 0%nat. split; [cbn [print_expr sep_by app List.length]; lia|]. split; [lia|].
-      intros pexpr lf f stk rest R t' X tf Hp Hlf Hr _ H1 H2.
-      cbn [print_expr sep_by strip_spans map app Nat.add].
-      apply pl_unary_miss; [reflexivity|]. apply pl_primary_bracket; [discriminate|].
-      eapply run_orelse_hit; [apply run_eat_hit; [reflexivity|exact Hr]|].
-      eapply run_bind; [apply run_mk_span0|].
-      rewrite Nat.sub_0_r in H1. eapply pl_parsed_suffix_gen; [exact H1|exact H2].
-    + inversion Hall as [|? ? (Hs1 & Hc1 & Hw1) Hall']; subst.
-      destruct (IH x1 Hs1 Hc1 0%nat true ltac:(lia) Hw1) as (c1 & Hb1 & HB1).
-      destruct (core_head x1 Hc1) as (ch1 & rh1 & Eh1 & _ & Hst1).
-      destruct more as [|x2 more].
-      * exists (2 + (c1 + 3))%nat, 0%nat. split; [len_tac|]. split; [lia|].
-        intros pexpr lf f stk rest R t' X tf Hp Hlf Hr _ H1 H2.
-        cbn [print_expr sep_by flat_map strip_spans map]. rewrite app_nil_r. norm_app. cbn [Nat.add].
-        apply pl_unary_miss; [reflexivity|]. apply pl_primary_bracket; [auto with rt|].
-        eapply run_orelse_miss; [eapply run_eat_miss_app; [exact Eh1|apply starter_not; [exact Hst1|reflexivity]]|].
-        change (init_state T) with (enter 0). fuel_as (c1 + (3 + f))%nat.
-        apply HB1; [eapply pexpr_ok_mono; [exact Hp|len_tac]|revert Hlf; len_tac|reflexivity|intros _; reflexivity|].
-        change (exit_ 0 (strip_spans x1)) with (StBinaryRhs (kind 0) (strip_spans x1)). cbn [Nat.add].
-        apply pl_rhs_none; [reflexivity|]. apply pl_item0_single; [exact Hr|].
-        rewrite Nat.sub_0_r in H1. eapply pl_parsed_suffix_gen; [exact H1|exact H2].
-      * destruct (array_items n IH more x2 Hall') as (c' & Hb' & HB').
-        inversion Hall' as [|? ? (_ & Hc2 & _) _]; subst.
-        destruct (core_head x2 Hc2) as (ch2 & rh2 & Eh2 & _ & Hst2).
-        exists (2 + (c1 + (2 + (c' + 1))))%nat, 0%nat.
-        assert (Elen : List.length (print_expr (EArray sp (x1 :: x2 :: more))) =
-                       (List.length (print_expr x1) + List.length (items_toks x2 more) + 3)%nat).
-        { cbn [print_expr sep_by flat_map]. unfold items_toks, comma. repeat (rewrite app_length; cbn [List.length]). lia. }
-        split; [lia|]. split; [lia|].
-        intros pexpr lf f stk rest R t' X tf Hp Hlf Hr _ H1 H2. rewrite Elen in Hp, Hlf.
-        cbn [print_expr sep_by flat_map strip_spans]. unfold comma at 1. norm_app. cbn [Nat.add].
-        apply pl_unary_miss; [reflexivity|]. apply pl_primary_bracket; [auto with rt|].
-        eapply run_orelse_miss; [eapply run_eat_miss_app; [exact Eh1|apply starter_not; [exact Hst1|reflexivity]]|].
-        change (init_state T) with (enter 0). fuel_as (c1 + (2 + (c' + (1 + f))))%nat.
-        apply HB1; [eapply pexpr_ok_mono; [exact Hp|lia]|lia|reflexivity|intros _; reflexivity|].
-        change (exit_ 0 (strip_spans x1)) with (StBinaryRhs (kind 0) (strip_spans x1)). cbn [Nat.add].
-        apply pl_rhs_none; [reflexivity|].
-        change (print_expr x2 ++ flat_map (fun y => comma ++ print_expr y) more ++ sim SRightBracket :: rest)
-          with (print_expr x2 ++ (flat_map (fun y => comma ++ print_expr y) more ++ sim SRightBracket :: rest)).
-        rewrite app_assoc.
-        eapply pl_item0_more'; [apply app_eq_cons_l; exact Eh2|exact Hst2|].
-        eapply (HB' pexpr lf _ _ _ [strip_spans x1]); [exact Hp|lia|unfold items_toks; lia|exact Hr|].
-        cbn [app map] in *. apply pl_parsed_suffix_gen with (R := R) (t1 := t'); [|exact H2].
-        rewrite Nat.sub_0_r in H1. exact H1.
-  - (* EArrayComp *)
-    cbn [wpx] in Hwp. cbn [esize] in Hsz.
-    apply andb_true_iff in Hwp as [Hwp Hws]. apply andb_true_iff in Hwp as [Hwx Hok].
-    apply andb_true_iff in Hcore as [Hcx Hcs]. apply andb_true_iff in Hcx as [Hcx _].
-    destruct (IH e ltac:(lia) Hcx 0%nat true ltac:(lia) Hwx) as (c1 & Hb1 & HB1).
-    destruct (core_head e Hcx) as (ch1 & rh1 & Eh1 & _ & Hst1).
-    exists (2 + (c1 + 3))%nat, 0%nat.
-    assert (Elen : List.length (print_expr (EArrayComp sp e specs)) =
-                   (List.length (print_expr e) + List.length (flat_map print_spec specs) + 2)%nat).
-    { change (print_expr (EArrayComp sp e specs)) with (sim SLeftBracket :: print_expr e ++ flat_map print_spec specs ++ [sim SRightBracket]).
-      cbn [List.length]. repeat (rewrite app_length; cbn [List.length]). lia. }
-    split; [lia|]. split; [lia|].
-    intros pexpr lf f stk rest R t' X tf Hp Hlf Hr _ H1 H2. rewrite Elen in Hp, Hlf.
-    assert (Hall : Forall (spec_ok (List.length (print_expr e) + List.length (flat_map print_spec specs) + 2)) specs).
-    { apply Forall_forall. intros sc Hin. rewrite forallb_forall in Hcs, Hws.
-      split; [apply (Hcs sc Hin)|]. split; [apply (Hws sc Hin)|].
-      assert (List.length (print_spec sc) <= List.length (flat_map print_spec specs))%nat; [|lia].
-      clear -Hin. induction specs as [|s0 more IHs]; [destruct Hin|]. cbn [flat_map]. rewrite app_length.
-      destruct Hin as [->|Hin]; [lia|]. specialize (IHs Hin). lia. }
-    assert (Hsl : (List.length specs <= List.length (flat_map print_spec specs))%nat).
-    { clear. induction specs as [|s0 more IHs]; [cbn; lia|]. cbn [flat_map List.length]. rewrite app_length.
-      destruct s0; cbn [print_spec List.length]; lia. }
-    change (print_expr (EArrayComp sp e specs)) with (sim SLeftBracket :: print_expr e ++ flat_map print_spec specs ++ [sim SRightBracket]).
-    change (strip_spans (EArrayComp sp e specs)) with (EArrayComp sp0 (strip_spans e) (map strip_spec specs)) in H1.
-    norm_app. cbn [Nat.add].
-    apply pl_unary_miss; [reflexivity|]. apply pl_primary_bracket; [auto with rt|].
-    eapply run_orelse_miss; [eapply run_eat_miss_app; [exact Eh1|apply starter_not; [exact Hst1|reflexivity]]|].
-    change (init_state T) with (enter 0). fuel_as (c1 + (3 + f))%nat.
-    destruct specs as [|[v y|y] more]; cbn [specs_ok] in Hok; try discriminate.
-    apply HB1; [eapply pexpr_ok_mono; [exact Hp|lia]|lia|reflexivity|intros _; reflexivity|].
-    change (exit_ 0 (strip_spans e)) with (StBinaryRhs (kind 0) (strip_spans e)). cbn [Nat.add].
-    apply pl_rhs_none; [reflexivity|].
-    eapply (pl_item0_comp pexpr lf _ _ _ (sim KFor)); [reflexivity| |exact Hr|].
-    + apply (run_comp_spec pexpr _ Hp (S lf) (CFor v y :: more) (sim SRightBracket) rest);
-        [reflexivity|lia|exact Hall|split; reflexivity|reflexivity|reflexivity].
-    + rewrite Nat.sub_0_r in H1. eapply pl_parsed_suffix_gen; [exact H1|exact H2].
-  - (* EField *)
-    cbn [wpx] in Hwp. cbn [esize] in Hsz.
-    destruct (IHe ltac:(lia) Hcore Hwp) as (c & m & Hbc & Hbm & HS).
-    exists c, (S m). split; [len_tac|]. split; [len_tac|].
-    intros pexpr lf f stk rest R t' X tf Hp Hlf Hr Hts H1 H2.
-    cbn [print_expr strip_spans]. rewrite <- app_assoc. cbn [app].
-    assert (Hl : (List.length (print_expr e) + 2 <= lf)%nat) by (revert Hlf; len_tac).
-    eapply HS; [eapply pexpr_ok_mono; [exact Hp|len_tac]|lia|discriminate|reflexivity| |exact H2].
-    replace (S lf - m)%nat with (S (S lf - S m)) by lia. cbn [suffix_loop].
-    eapply run_orelse_hit; [apply run_eat_hit; [reflexivity|discriminate]|].
-    eapply run_bind; [unfold id_tok, tk; apply run_expect_ident_hit; exact Hr|].
-    rewrite strip_span0. eapply run_bind; [apply run_mk_span0|]. exact H1.
-  - (* EIndex *)
-    cbn [wpx] in Hwp. cbn [esize] in Hsz. apply andb_true_iff in Hwp as [Hwx Hwi].
-    apply andb_true_iff in Hcore as [Hcx Hci].
-    destruct (IHe1 ltac:(lia) Hcx Hwx) as (c & m & Hbc & Hbm & HS).
-    exists c, (S m). split; [len_tac|]. split; [len_tac|].
-    intros pexpr lf f stk rest R t' X tf Hp Hlf Hr Hts H1 H2.
-    cbn [print_expr strip_spans]. norm_app.
-    assert (Hl : (List.length (print_expr e1) + 2 <= lf)%nat) by (revert Hlf; len_tac).
-    eapply HS; [eapply pexpr_ok_mono; [exact Hp|len_tac]|lia|discriminate|reflexivity| |exact H2].
-    replace (S lf - m)%nat with (S (S lf - S m)) by lia. cbn [suffix_loop].
-    eapply run_orelse_miss; [apply run_eat_miss; reflexivity|].
-    eapply run_orelse_hit; [apply run_eat_hit; [reflexivity|auto with rt]|].
-    eapply run_bind; [|exact H1].
-    apply (run_index pexpr _ Hp); [exact Hci|exact Hwi|len_tac|apply strip_span0|exact Hr].
-  - (* ESlice *)
-    cbn [wpx] in Hwp. cbn [esize] in Hsz.
-    apply andb_true_iff in Hwp as [Hwp Hwc]. apply andb_true_iff in Hwp as [Hwp Hwb].
-    apply andb_true_iff in Hwp as [Hwx Hwa].
-    apply andb_true_iff in Hcore as [Hcore Hcc]. apply andb_true_iff in Hcore as [Hcore Hcb].
-    apply andb_true_iff in Hcore as [Hcx Hca].
-    destruct (IHe ltac:(lia) Hcx Hwx) as (c0 & m & Hbc & Hbm & HS).
-    exists c0, (S m). split; [len_tac|]. split; [len_tac|].
-    intros pexpr lf f stk rest R t' X tf Hp Hlf Hr Hts H1 H2.
-    cbn [print_expr strip_spans]. norm_app.
-    assert (Hl : (List.length (print_expr e) + 2 <= lf)%nat) by (revert Hlf; len_tac).
-    eapply HS; [eapply pexpr_ok_mono; [exact Hp|len_tac]|lia|discriminate|reflexivity| |exact H2].
-    replace (S lf - m)%nat with (S (S lf - S m)) by lia. cbn [suffix_loop].
-    eapply run_orelse_miss; [apply run_eat_miss; reflexivity|].
-    eapply run_orelse_hit; [apply run_eat_hit; [reflexivity|auto with rt]|].
-    eapply run_bind; [|exact H1].
-    change (match c with Some c' => sim SColon :: print_expr c' | None => [] end) with (ctoks c).
-    apply (run_slice pexpr _ Hp); try assumption; try apply strip_span0;
-      [destruct a; cbn [olen]; len_tac|destruct b; cbn [olen]; len_tac|destruct c; cbn [olen]; len_tac].
-  - (* ESuperField *)
-    exists 3%nat, 0%nat. split; [cbn [print_expr List.length]; lia|]. split; [lia|].
-    intros pexpr lf f stk rest R t' X tf _ _ Hr _ H1 H2. cbn [print_expr strip_spans app Nat.add].
-    apply pl_unary_miss; [reflexivity|]. apply pl_primary_super; [discriminate|].
-    eapply run_orelse_hit; [apply run_eat_hit; [reflexivity|discriminate]|].
-    eapply run_bind; [unfold id_tok, tk; apply run_expect_ident_hit; exact Hr|].
-    eapply run_bind; [apply run_mk_span0|].
-    rewrite Nat.sub_0_r in H1. eapply pl_parsed_suffix_gen; [exact H1|exact H2].
-  - (* ESuperIndex *)
-    cbn [wpx] in Hwp.
-    exists 3%nat, 0%nat. split; [len_tac|]. split; [lia|].
-    intros pexpr lf f stk rest R t' X tf Hp _ Hr _ H1 H2. cbn [print_expr strip_spans]. norm_app. cbn [Nat.add].
-    apply pl_unary_miss; [reflexivity|]. apply pl_primary_super; [discriminate|].
-    eapply run_orelse_miss; [apply run_eat_miss; reflexivity|].
-    eapply run_orelse_hit; [apply run_eat_hit; [reflexivity|auto with rt]|].
-    eapply run_bind; [apply Hp; [exact Hcore|exact Hwp|len_tac|reflexivity|intros _; reflexivity]|].
-    eapply run_bind; [apply run_expect_hit; [reflexivity|exact Hr]|].
-    eapply run_bind; [apply run_mk_span0|].
-    rewrite Nat.sub_0_r in H1. eapply pl_parsed_suffix_gen; [exact H1|exact H2].
-  - (* ECall *)
-    cbn [wpx] in Hwp. cbn [esize] in Hsz. apply andb_true_iff in Hwp as [Hwx Hwa].
-    apply andb_true_iff in Hcore as [Hcx Hca].
-    destruct (IHe ltac:(lia) Hcx Hwx) as (c & m & Hbc & Hbm & HS).
-    exists c, (S m). split; [len_tac|]. split; [len_tac|].
-    intros pexpr lf f stk rest R t' X tf Hp Hlf Hr Hts H1 H2.
-    cbn [print_expr strip_spans]. norm_app.
-    assert (Hl : (List.length (print_expr e) + 2 <= lf)%nat) by (revert Hlf; len_tac).
-    eapply HS; [eapply pexpr_ok_mono; [exact Hp|len_tac]|lia|discriminate|reflexivity| |exact H2].
-    replace (S lf - m)%nat with (S (S lf - S m)) by lia. cbn [suffix_loop].
-    eapply run_orelse_miss; [apply run_eat_miss; reflexivity|].
-    eapply run_orelse_miss; [apply run_eat_miss; reflexivity|].
-    eapply run_orelse_hit; [apply run_eat_hit; [reflexivity|auto with rt]|].
-    assert (Hargs : Forall (arg_ok (List.length (print_expr (ECall sp e args tailstrict)))) args).
-    { apply Forall_forall. intros a Hin. rewrite forallb_forall in Hca, Hwa.
-      split; [apply (Hca a Hin)|]. split; [apply (Hwa a Hin)|].
-      unfold alen.
-      assert (Hle : (List.length (print_arg a) <= List.length (sep_by comma print_arg args))%nat); [|revert Hle; len_tac].
-      clear -Hin. unfold sep_by. destruct args as [|a0 more]; [destruct Hin|].
-      rewrite app_length. destruct Hin as [->|Hin]; [lia|].
-      induction more as [|a1 more IHm]; [destruct Hin|]. cbn [flat_map]. rewrite !app_length.
-      destruct Hin as [->|Hin]; [lia|]. specialize (IHm Hin). lia. }
-    assert (Htail : forall args' t0,
-      t0 = (if tailstrict then [sim KTailstrict] else []) ++ rest ->
-      args' = map strip_arg args ->
-      run (ts <- eat_simple KTailstrict true ;;
-           sp1 <- mk_span (expr_span (strip_spans e)) (match ts with Some t => t | None => sp0 end) ;;
-           suffix_loop pexpr (S lf) (S lf - S m) (ECall sp1 (strip_spans e) args' (is_some ts))) t0 R t').
-    { intros args' t0 -> ->. destruct tailstrict; cbn [app].
-      + eapply run_bind; [apply run_eat_hit; [reflexivity|exact Hr]|].
-        cbv beta iota. rewrite strip_span0. eapply run_bind; [apply run_mk_span0|]. exact H1.
-      + destruct rest as [|c0 rest0]; [congruence|]. cbn in Hts.
-        eapply run_bind; [apply run_eat_miss; exact Hts|].
-        cbv beta iota. rewrite strip_span0. eapply run_bind; [apply run_mk_span0|]. exact H1. }
-    unfold sep_by. destruct args as [|a0 more].
-    + cbn [app]. eapply run_bind.
-      * eapply run_orelse_hit; [apply run_eat_hit; [reflexivity|destruct tailstrict; [discriminate|exact Hr]]|apply run_ret].
-      * cbv beta iota. apply Htail; reflexivity.
-    + inversion Hargs as [|? ? (Hc0 & _) _]; subst.
-      destruct (arg_head a0 Hc0) as (ch & rh & Eh & Hh).
-      rewrite <- !app_assoc. eapply run_bind.
-      * eapply run_orelse_miss; [eapply run_eat_miss_app; [exact Eh|exact Hh]|].
-        unfold parse_args. apply run_call.
-        eapply run_orelse_miss; [eapply run_eat_miss_app; [exact Eh|exact Hh]|].
-        apply (run_args_loop pexpr _ Hp); [pose proof (flat_len print_arg more) as Hfl; cbn [print_expr] in Hlf; unfold sep_by in Hlf; revert Hlf Hfl; len_tac|exact Hargs|destruct tailstrict; [discriminate|exact Hr]].
-      * cbv beta iota. apply Htail; reflexivity.
-  - (* EBinary *) cbn [wpx] in Hwp. destruct op; cbn in Hwp; discriminate.
-Qed.
-
-Lemma suffix_case n
-  (IH : forall y, (esize y < n)%nat -> core_expr y = true -> forall k last, (k <= 10)%nat ->
-        wpx k last y = true -> exists c, (c <= 40 * List.length (print_expr y))%nat /\ Bform k last y c)
-  e k last : (esize e <= n)%nat -> core_expr e = true -> wpx lv_postfix false e = true -> (k <= 10)%nat ->
-  exists c, (c <= 40 * List.length (print_expr e))%nat /\ Bform k last e c.
-Proof.
-  intros Hsz Hcore Hw11 Hk. pose proof (steps_fin_le k) as Hfin.
-  destruct (sform n IH e Hsz Hcore Hw11) as (c & m & Hbc & Hbm & HS).
-  exists ((10 - k) + c + steps_fin k)%nat. split; [lia|].
-  apply wrap; [exact Hk|].
-  intros pexpr lf f stk fo r x tf Hp Hlf Hn _ _ H.
-  destruct (nosfx_inv fo Hn) as (_ & _ & _ & _ & Hts).
-  eapply HS; [exact Hp|exact Hlf|discriminate|exact Hts| |exact H].
-  replace (S lf - m)%nat with (S (lf - m)) by lia. apply suffix_none; exact Hn.
-Qed.
-
-Theorem rt_main : forall n e, (esize e < n)%nat -> core_expr e = true ->
-  forall k last, (k <= 10)%nat -> wpx k last e = true ->
-  exists c, (c <= 40 * List.length (print_expr e))%nat /\ Bform k last e c.
-Proof.
-  induction n as [|n IH]; [intros; lia|].
-  intros e Hsz Hcore k last Hk Hwp.
-  pose proof (steps_fin_le k) as Hfin.
-  destruct e; cbn [core_expr] in Hcore; try discriminate;
-    try (exists ((10 - k) + 3 + steps_fin k)%nat; split;
-         [cbn [print_expr List.length]; lia | apply wrap; [exact Hk|eapply U_atom; reflexivity]]).
-  - (* EParen *)
-    cbn [wpx] in Hwp. cbn [esize] in Hsz.
-    destruct (IH e ltac:(lia) Hcore 0%nat true ltac:(lia) Hwp) as (cx & Hbx & Hx).
-    exists ((10 - k) + (S (S (cx + 3))) + steps_fin k)%nat. split; [len_tac|].
-    apply wrap; [exact Hk|].
-    intros pexpr lf f stk fo r x tf Hp Hlf Hn _ _ H.
-    cbn [print_expr strip_spans app]. rewrite <- app_assoc. cbn [app Nat.add].
-    apply pl_unary_miss; [reflexivity|].
-    apply pl_primary_paren; [auto with rt|].
-    change (init_state T) with (enter 0).
-    fuel_as (cx + (3 + f))%nat.
-    apply Hx; [eapply pexpr_ok_mono; [exact Hp|len_tac]| revert Hlf; len_tac |reflexivity|intros _; reflexivity|].
-    change (exit_ 0 (strip_spans e)) with (StBinaryRhs (kind 0) (strip_spans e)). cbn [Nat.add].
-    apply pl_rhs_none; [reflexivity|].
-    apply pl_parsed_paren; [discriminate|].
-    apply pl_parsed_suffix_none; [exact Hn|exact H].
-  - (* EArray *) apply (suffix_case n IH); [cbn [esize] in *; lia|exact Hcore|exact Hwp|exact Hk].
-  - (* EArrayComp *) apply (suffix_case n IH); [cbn [esize] in *; lia|exact Hcore|exact Hwp|exact Hk].
-  - (* EField *) apply (suffix_case n IH); [cbn [esize] in *; lia|exact Hcore|exact Hwp|exact Hk].
-  - (* EIndex *) apply (suffix_case n IH); [cbn [esize] in *; lia|exact Hcore|exact Hwp|exact Hk].
-  - (* ESlice *) apply (suffix_case n IH); [cbn [esize] in *; lia|exact Hcore|exact Hwp|exact Hk].
-  - (* ESuperField *) apply (suffix_case n IH); [cbn [esize] in *; lia|exact Hcore|exact Hwp|exact Hk].
-  - (* ESuperIndex *) apply (suffix_case n IH); [cbn [esize] in *; lia|exact Hcore|exact Hwp|exact Hk].
-  - (* ECall *) apply (suffix_case n IH); [cbn [esize] in *; lia|exact Hcore|exact Hwp|exact Hk].
-  - (* ELocal *)
-    cbn [esize] in Hsz.
-    assert (Hlast : last = true) by (cbn [wpx] in Hwp; destruct last; cbn in Hwp; congruence).
-    subst last. cbn [wpx andb] in Hwp.
-    apply andb_true_iff in Hwp as [Hwp Hwb]. apply andb_true_iff in Hwp as [_ Hwbs].
-    apply andb_true_iff in Hcore as [Hcore Hcb]. apply andb_true_iff in Hcore as [Hne Hcbs].
-    destruct binds as [|b0 more]; [discriminate|]. clear Hne.
-    exists ((10 - k) + 3 + steps_fin k)%nat. split; [len_tac|].
-    apply wrap; [exact Hk|].
-    intros pexpr lf f stk fo r v tf Hp Hlf Hn Hs Hel H.
-    specialize (Hs eq_refl).
-    set (Lb := List.length (print_expr (ELocal sp (b0 :: more) e))) in *.
-    assert (Eprint : print_expr (ELocal sp (b0 :: more) e) =
-              sim KLocal :: (print_bind b0 ++ flat_map (fun b => comma ++ print_bind b) more) ++ sim SSemicolon :: print_expr e)
-      by reflexivity.
-    assert (Hbl : forall b, In b (b0 :: more) -> (List.length (print_bind b) + 2 <= Lb)%nat).
-    { intros b Hin. pose proof (sep_by_len print_bind (b0 :: more) b Hin) as Hle. unfold Lb. rewrite Eprint.
-      unfold sep_by in Hle. cbn [List.length]. repeat (rewrite app_length; cbn [List.length]).
-      rewrite app_length in Hle. lia. }
-    assert (Hall : Forall (fun b => bind_ok Lb b /\ (List.length (print_bind b) <= S lf)%nat) (b0 :: more)).
-    { apply Forall_forall. intros b Hin. rewrite forallb_forall in Hcbs, Hwbs. specialize (Hbl b Hin).
-      split; [|lia]. split; [apply (Hcbs b Hin)|]. split; [apply (Hwbs b Hin)|lia]. }
-    inversion Hall as [|? ? (Hok0 & Hl0) Hall']; subst.
-    rewrite Eprint. change (strip_spans (ELocal sp (b0 :: more) e))
-      with (ELocal sp0 (strip_bind b0 :: map strip_bind more) (strip_spans e)) in H.
-    norm_app. cbn [Nat.add].
-    apply pl_unary_miss; [reflexivity|]. apply pl_primary_local; [auto with rt|].
-    destruct (binds_head more (sim SSemicolon) (print_expr e ++ fo :: r) eq_refl eq_refl) as (t0 & r0 & E0 & Hs0 & He0).
-    rewrite E0.
-    eapply run_bind; [apply (run_bind_ pexpr Lb Hp (S lf) b0 t0 r0 Hok0 Hl0 Hs0 He0)|].
-    rewrite <- E0.
-    eapply run_bind.
-    { apply (run_binds_loop pexpr Lb Hp (S lf) more [strip_bind b0] (S lf)); [|exact Hall'|reflexivity|reflexivity|reflexivity].
-      pose proof (flat_len print_bind more). unfold Lb in Hlf. rewrite Eprint in Hlf. revert Hlf.
-      cbn [List.length]. repeat (rewrite app_length; cbn [List.length]). lia. }
-    cbn [app].
-    eapply run_bind; [apply run_expect_hit; [reflexivity|auto with rt]|].
-    eapply run_bind; [apply Hp; [exact Hcb|exact Hwb| |exact Hs|exact Hel]|].
-    { unfold Lb. rewrite Eprint. cbn [List.length]. repeat (rewrite app_length; cbn [List.length]). lia. }
-    rewrite strip_span0. eapply run_bind; [apply run_mk_span0|].
-    apply pl_parsed_suffix_none; [exact Hn|exact H].
-  - (* EIf *)
-    cbn [esize] in Hsz.
-    assert (Hlast : last = true) by (cbn [wpx] in Hwp; destruct e3, last; cbn in Hwp; congruence).
-    subst last.
-    exists ((10 - k) + 3 + steps_fin k)%nat. split; [len_tac|].
-    apply wrap; [exact Hk|].
-    intros pexpr lf f stk fo r v tf Hp Hlf Hn Hs Hel H.
-    specialize (Hs eq_refl).
-    apply andb_true_iff in Hcore as [Hcore Hc3]. apply andb_true_iff in Hcore as [Hc1 Hc2].
-    destruct e3 as [e3|]; cbn [wpx andb] in Hwp.
-    + apply andb_true_iff in Hwp as [Hwp Hw3]. apply andb_true_iff in Hwp as [Hwp Hdg].
-      apply andb_true_iff in Hwp as [Hw1 Hw2]. apply negb_true_iff in Hdg.
-      cbn [print_expr strip_spans option_map app Nat.add]. rewrite <- !app_assoc. cbn [app].
-      apply pl_unary_miss; [reflexivity|]. apply pl_primary_if; [auto with rt|].
-      eapply run_bind; [apply Hp; [exact Hc1|exact Hw1|len_tac|reflexivity|intros _; reflexivity]|].
-      eapply run_bind; [apply run_expect_hit; [reflexivity|auto with rt]|].
-      rewrite <- app_assoc. cbn [app].
-      eapply run_bind; [apply Hp; [exact Hc2|exact Hw2|len_tac|reflexivity|intros Hd; congruence]|].
-      eapply run_bind; [apply run_eat_hit; [reflexivity|auto with rt]|].
-      cbn [opt_expr].
-      eapply run_bind; [eapply run_bind; [apply Hp; [exact Hc3|exact Hw3|len_tac|exact Hs|exact Hel]|apply run_ret]|].
-      cbv beta iota; rewrite ?strip_span0. eapply run_bind; [apply run_mk_span0|].
-      apply pl_parsed_suffix_none; [exact Hn|exact H].
-    + apply andb_true_iff in Hwp as [Hw1 Hw2].
-      cbn [print_expr strip_spans option_map app Nat.add]. rewrite <- !app_assoc. cbn [app].
-      rewrite app_nil_r.
-      apply pl_unary_miss; [reflexivity|]. apply pl_primary_if; [auto with rt|].
-      eapply run_bind; [apply Hp; [exact Hc1|exact Hw1|len_tac|reflexivity|intros _; reflexivity]|].
-      eapply run_bind; [apply run_expect_hit; [reflexivity|auto with rt]|].
-      eapply run_bind; [apply Hp; [exact Hc2|exact Hw2|len_tac|exact Hs|intros _; apply Hel; reflexivity]|].
-      eapply run_bind; [apply run_eat_miss; apply Hel; reflexivity|].
-      cbn [opt_expr]. eapply run_bind; [apply run_ret|].
-      cbv beta iota; rewrite ?strip_span0. eapply run_bind; [apply run_mk_span0|].
-      apply pl_parsed_suffix_none; [exact Hn|exact H].
-  - (* EBinary *)
-    cbn [wpx] in Hwp. cbn [esize] in Hsz.
-    apply andb_true_iff in Hcore as [Hc1 Hc2].
-    apply andb_true_iff in Hwp as [Hwp Hw2]. apply andb_true_iff in Hwp as [Hkj Hw1].
-    apply Nat.leb_le in Hkj. pose proof (level_le9 op) as Hj9.
-    set (j := binop_level op) in *.
-    destruct (IH e1 ltac:(lia) Hc1 j false ltac:(lia) Hw1) as (c1 & Hb1 & H1).
-    destruct (IH e2 ltac:(lia) Hc2 (S j) last ltac:(lia) Hw2) as (c2 & Hb2 & H2).
-    exists ((j - k) + (c1 + (1 + (c2 + ((if (S j <? 10)%nat then 2 else 1) + (2 * (j - k)))))))%nat.
-    split; [destruct (S j <? 10)%nat; len_tac|].
-    intros pexpr lf f stk fo r x tf Hp Hlf Hfc Hel H.
-    pose proof (fcond_nosfx _ _ _ Hfc) as Hn. pose proof (fcond_noop _ _ _ Hfc) as Ho.
-    cbn [print_expr strip_spans]. rewrite <- app_assoc. cbn [app].
-    fuel_as ((j - k) + (c1 + (1 + (c2 + ((if (S j <? 10)%nat then 2 else 1) + (2 * (j - k) + f))))))%nat.
-    assert (Ek : enter k = StBinary (kind k)).
-    { unfold enter. replace (k <? 10)%nat with true by (symmetry; apply Nat.ltb_lt; lia). reflexivity. }
-    apply descend; [lia|]. replace (k + (j - k))%nat with j by lia.
-    apply H1; [eapply pexpr_ok_mono; [exact Hp|len_tac]| revert Hlf; len_tac
-              |split; [apply optok_nosfx|apply optok_noop]
-              |intros _; destruct op; reflexivity|].
-    unfold exit_. replace (j <? 10)%nat with true by (symmetry; apply Nat.ltb_lt; lia).
-    cbn [Nat.add].
-    apply pl_rhs_op; [auto with rt| apply core_in_ok; exact Hc2 |].
-    apply H2; [eapply pexpr_ok_mono; [exact Hp|len_tac]| revert Hlf; len_tac
-              | destruct last; cbn in Hfc |- *; [exact Hfc|split; [tauto|apply (noop_above_mono k); [tauto|lia]]]
-              | exact Hel |].
-    assert (Hback : run (pe_loop T pexpr (S lf) (1 + (2 * (j - k) + f)) (StParsed (strip_spans e2))
-                         (SiBinaryRhs (kind j) (strip_spans e1) op :: lhs_up k (j - k) ++ stk)) (fo :: r) x tf).
-    { cbn [Nat.add]. apply pl_parsed_rhs; [apply strip_span0|apply strip_span0|].
-      pose proof (ascend pexpr (S lf) (j - k) k f (EBinary sp0 (strip_spans e1) op (strip_spans e2)) stk fo r x tf
-                    ltac:(lia) Ho) as Ha.
-      replace (k + (j - k))%nat with j in Ha by lia. apply Ha.
-      unfold exit_ in H. replace (k <? 10)%nat with true in H by (symmetry; apply Nat.ltb_lt; lia). exact H. }
-    unfold exit_. destruct (S j <? 10)%nat eqn:Ej.
-    + cbn [Nat.add]. apply pl_rhs_none; [apply (noop_above_at k); [exact Ho|apply Nat.ltb_lt in Ej; lia]|].
-      exact Hback.
-    + exact Hback.
-  - (* EUnary *)
-    cbn [wpx] in Hwp. cbn [esize] in Hsz.
-    apply andb_true_iff in Hwp as [_ Hwx].
-    destruct (IH e ltac:(lia) Hcore 10%nat last ltac:(lia) Hwx) as (cx & Hbx & Hx).
-    exists ((10 - k) + (S (cx + 1)) + steps_fin k)%nat. split; [len_tac|].
-    intros pexpr lf f stk fo r x tf Hp Hlf Hfc Hel H.
-    pose proof (fcond_nosfx _ _ _ Hfc) as Hn. pose proof (fcond_noop _ _ _ Hfc) as Ho.
-    fuel_as ((10 - k) + (S (cx + (1 + (steps_fin k + f)))))%nat.
-    apply descend; [lia|]. replace (k + (10 - k))%nat with 10%nat by lia.
-    change (enter 10) with StUnary.
-    cbn [print_expr strip_spans app Nat.add].
-    apply pl_unary_hit; [auto with rt|].
-    change StUnary with (enter 10).
-    apply Hx; [eapply pexpr_ok_mono; [exact Hp|len_tac]| revert Hlf; len_tac
-              | destruct last; cbn in Hfc |- *; [exact Hfc|split; [tauto|reflexivity]] | exact Hel |].
-    change (exit_ 10 (strip_spans e)) with (StParsed (strip_spans e)). cbn [Nat.add].
-    apply pl_parsed_unary; [apply strip_span0|].
-    apply finish; [exact Hk|exact Ho|exact H].
-  - (* EFunc *)
-    cbn [esize] in Hsz.
-    assert (Hlast : last = true) by (cbn [wpx] in Hwp; destruct last; cbn in Hwp; congruence).
-    subst last. cbn [wpx andb] in Hwp.
-    apply andb_true_iff in Hwp as [Hwps Hwb]. apply andb_true_iff in Hcore as [Hcps Hcb].
-    exists ((10 - k) + 3 + steps_fin k)%nat. split; [len_tac|].
-    apply wrap; [exact Hk|].
-    intros pexpr lf f stk fo r v tf Hp Hlf Hn Hs Hel H.
-    specialize (Hs eq_refl).
-    set (Lb := List.length (print_expr (EFunc sp params e))) in *.
-    assert (Eprint : print_expr (EFunc sp params e) =
-              sim KFunction :: sim SLeftParen :: sep_by comma print_param params ++ sim SRightParen :: print_expr e)
-      by reflexivity.
-    assert (Hall : Forall (param_ok Lb) params).
-    { apply Forall_forall. intros p0 Hin. rewrite forallb_forall in Hcps, Hwps.
-      split; [apply (Hcps p0 Hin)|]. split; [apply (Hwps p0 Hin)|].
-      pose proof (sep_by_len print_param params p0 Hin). unfold Lb. rewrite Eprint.
-      cbn [List.length]. repeat (rewrite app_length; cbn [List.length]). lia. }
-    assert (Hcnt : (List.length params <= S lf)%nat).
-    { assert (List.length params <= List.length (sep_by comma print_param params))%nat.
-      { apply sep_by_count. intros [nm dd] _. cbn [print_param]. discriminate. }
-      unfold Lb in Hlf. rewrite Eprint in Hlf. revert Hlf. cbn [List.length]. repeat (rewrite app_length; cbn [List.length]). lia. }
-    rewrite Eprint. change (strip_spans (EFunc sp params e)) with (EFunc sp0 (map strip_param params) (strip_spans e)) in H.
-    norm_app. cbn [Nat.add].
-    apply pl_unary_miss; [reflexivity|]. apply pl_primary_function; [discriminate|].
-    eapply run_bind; [apply run_expect_hit; [reflexivity|auto with rt]|].
-    eapply run_bind; [apply (run_params pexpr Lb Hp (S lf) params); [exact Hcnt|exact Hall|auto with rt]|].
-    cbv beta iota.
-    eapply run_bind; [apply Hp; [exact Hcb|exact Hwb| |exact Hs|exact Hel]|].
-    { unfold Lb. rewrite Eprint. cbn [List.length]. repeat (rewrite app_length; cbn [List.length]). lia. }
-    rewrite strip_span0. eapply run_bind; [apply run_mk_span0|].
-    apply pl_parsed_suffix_none; [exact Hn|exact H].
-  - (* EAssert *)
-    cbn [esize assert_size] in Hsz. destruct a as [asp ac am].
-    assert (Hlast : last = true) by (cbn [wpx] in Hwp; destruct last; cbn in Hwp; congruence).
-    subst last. cbn [wpx wp_assert andb] in Hwp.
-    apply andb_true_iff in Hwp as [Hwa Hwb]. apply andb_true_iff in Hwa as [Hw1 Hwm].
-    apply andb_true_iff in Hcore as [Hcore Hcb]. apply andb_true_iff in Hcore as [Hc1 Hcm].
-    exists ((10 - k) + 3 + steps_fin k)%nat. split; [len_tac|].
-    apply wrap; [exact Hk|].
-    intros pexpr lf f stk fo r v tf Hp Hlf Hn Hs Hel H.
-    specialize (Hs eq_refl).
-    destruct am as [em|]; cbn [opt_all] in Hwm.
-    + cbn [print_expr print_assert strip_spans strip_assert option_map app Nat.add].
-      repeat (progress (rewrite <- ?app_assoc; cbn [app])).
-      apply pl_unary_miss; [reflexivity|].
-      eapply pl_primary_assert; [auto with rt| |].
-      * eapply run_bind; [apply Hp; [exact Hc1|exact Hw1|len_tac|reflexivity|intros _; reflexivity]|].
-        eapply run_bind; [apply run_eat_hit; [reflexivity|auto with rt]|].
-        cbn [opt_expr].
-        eapply run_bind; [eapply run_bind; [apply Hp; [exact Hcm|exact Hwm|len_tac|reflexivity|intros _; reflexivity]|apply run_ret]|].
-        cbv beta iota; rewrite ?strip_span0. eapply run_bind; [apply run_mk_span0|apply run_ret].
-      * eapply run_bind; [apply run_expect_hit; [reflexivity|auto with rt]|].
-        eapply run_bind; [apply Hp; [exact Hcb|exact Hwb|len_tac|exact Hs|exact Hel]|].
-        cbv beta iota; rewrite ?strip_span0. eapply run_bind; [apply run_mk_span0|].
-        apply pl_parsed_suffix_none; [exact Hn|exact H].
-    + cbn [print_expr print_assert strip_spans strip_assert option_map app Nat.add].
-      rewrite app_nil_r. repeat (progress (rewrite <- ?app_assoc; cbn [app])).
-      apply pl_unary_miss; [reflexivity|].
-      eapply pl_primary_assert; [auto with rt| |].
-      * eapply run_bind; [apply Hp; [exact Hc1|exact Hw1|len_tac|reflexivity|intros _; reflexivity]|].
-        eapply run_bind; [apply run_eat_miss; reflexivity|].
-        cbn [opt_expr]. eapply run_bind; [apply run_ret|].
-        cbv beta iota; rewrite ?strip_span0. eapply run_bind; [apply run_mk_span0|apply run_ret].
-      * eapply run_bind; [apply run_expect_hit; [reflexivity|auto with rt]|].
-        eapply run_bind; [apply Hp; [exact Hcb|exact Hwb|len_tac|exact Hs|exact Hel]|].
-        cbv beta iota; rewrite ?strip_span0. eapply run_bind; [apply run_mk_span0|].
-        apply pl_parsed_suffix_none; [exact Hn|exact H].
-  - (* EImport *)
-    cbn [wpx] in Hwp. apply andb_true_iff in Hwp as [-> Hwx].
-    exists ((10 - k) + 3 + steps_fin k)%nat. split; [len_tac|].
-    apply wrap; [exact Hk|].
-    apply (U_prefix _ e KImport EImport); try reflexivity; try assumption.
-    intros; apply pl_primary_import; assumption.
-  - (* EImportStr *)
-    cbn [wpx] in Hwp. apply andb_true_iff in Hwp as [-> Hwx].
-    exists ((10 - k) + 3 + steps_fin k)%nat. split; [len_tac|].
-    apply wrap; [exact Hk|].
-    apply (U_prefix _ e KImportstr EImportStr); try reflexivity; try assumption.
-    intros; apply pl_primary_importstr; assumption.
-  - (* EImportBin *)
-    cbn [wpx] in Hwp. apply andb_true_iff in Hwp as [-> Hwx].
-    exists ((10 - k) + 3 + steps_fin k)%nat. split; [len_tac|].
-    apply wrap; [exact Hk|].
-    apply (U_prefix _ e KImportbin EImportBin); try reflexivity; try assumption.
-    intros; apply pl_primary_importbin; assumption.
-  - (* EError *)
-    cbn [wpx] in Hwp. apply andb_true_iff in Hwp as [-> Hwx].
-    exists ((10 - k) + 3 + steps_fin k)%nat. split; [len_tac|].
-    apply wrap; [exact Hk|].
-    apply (U_prefix _ e KError EError); try reflexivity; try assumption.
-    intros; apply pl_primary_error; assumption.
-  - (* EInSuper *)
-    cbn [wpx] in Hwp. cbn [esize] in Hsz.
-    apply andb_true_iff in Hwp as [Hk6 Hwx]. apply Nat.leb_le in Hk6. unfold lv_ordcmp in *.
-    destruct (IH e ltac:(lia) Hcore 6%nat false ltac:(lia) Hwx) as (cx & Hbx & Hx).
-    exists ((6 - k) + (cx + (1 + (2 * (6 - k)))))%nat. split; [len_tac|].
-    intros pexpr lf f stk fo r x tf Hp Hlf Hfc Hel H.
-    pose proof (fcond_nosfx _ _ _ Hfc) as Hn. pose proof (fcond_noop _ _ _ Hfc) as Ho.
-    cbn [print_expr strip_spans]. rewrite <- app_assoc. cbn [app].
-    fuel_as ((6 - k) + (cx + (1 + (2 * (6 - k) + f))))%nat.
-    apply descend; [lia|]. replace (k + (6 - k))%nat with 6%nat by lia.
-    apply Hx; [eapply pexpr_ok_mono; [exact Hp|len_tac]| revert Hlf; len_tac
-              |split; reflexivity|intros _; reflexivity|].
-    change (exit_ 6 (strip_spans e)) with (StBinaryRhs (kind 6) (strip_spans e)). cbn [Nat.add].
-    apply pl_rhs_insuper; [apply strip_span0|exact Hn|].
-    pose proof (ascend pexpr (S lf) (6 - k) k f (EInSuper sp0 (strip_spans e) sp0) stk fo r x tf
-                  ltac:(lia) Ho) as Ha.
-    replace (k + (6 - k))%nat with 6%nat in Ha by lia. apply Ha.
-    unfold exit_ in H. replace (k <? 10)%nat with true in H by (symmetry; apply Nat.ltb_lt; lia). exact H.
-Qed.
-
-(* ---------------------------------------------------------------- top level *)
-Lemma run_parse_expr f0 t (a : expr) t' :
-  run (pe_loop T (parse_expr T f0) f0 f0 (init_state T) []) t a t' -> run (parse_expr T (S f0)) t a t'.
-Proof. intros H. exact (run_call _ _ _ _ H). Qed.
-
-Lemma run_parse_root fuel c0 r0 (e : expr) :
-  run (parse_expr T fuel) (c0 :: r0) e [eof_tok] ->
-  omap fst (parse_fuel T fuel (c0 :: r0)) = Ok e.
-Proof.
-  intros H. unfold parse_fuel, parse_root_expr.
-  destruct (H (init_pst c0 r0) eq_refl) as (s' & E & Ts).
-  unfold bindP. rewrite E. destruct s' as [c r ex dc dm]. unfold toks_of in Ts; cbn in Ts.
-  injection Ts as -> ->. reflexivity.
-Qed.
-
-(* self.parse_expr() with enough fuel parses every covered sub-expression *)
-Theorem parse_expr_ok : forall L y fuel fo r, (List.length (print_expr y) < L)%nat ->
-  core_expr y = true -> wp y = true -> (41 * List.length (print_expr y) + 3 <= fuel)%nat ->
-  stopper fo = true -> else_ok y fo ->
-  run (parse_expr T fuel) (print_expr y ++ fo :: r) (strip_spans y) (fo :: r).
-Proof.
-  induction L as [|L IH]; [intros; lia|].
-  intros y fuel fo r HL Hc Hw Hf Hs He. unfold wp in Hw.
-  destruct (rt_main (S (esize y)) y ltac:(lia) Hc 0%nat true ltac:(lia) Hw) as (c & Hb & HB).
-  destruct fuel as [|f0]; [lia|].
-  apply run_parse_expr.
-  assert (Hlf : exists lf, f0 = S lf /\ (List.length (print_expr y) <= lf)%nat).
-  { exists (f0 - 1)%nat. split; lia. }
-  destruct Hlf as (lf & Elf & Hlf). rewrite Elf at 2.
-  assert (Hg : exists g, f0 = (c + S (S g))%nat) by (exists (f0 - c - 2)%nat; lia).
-  destruct Hg as (g & Eg). rewrite Eg at 2.
-  change (init_state T) with (enter 0).
-  apply HB; [|exact Hlf|exact Hs|exact He|].
-  - intros z fo' r' Hcz Hwz Hlz Hsz Hez. apply (IH z f0 fo' r'); [lia|exact Hcz|exact Hwz|lia|exact Hsz|exact Hez].
-  - change (exit_ 0 (strip_spans y)) with (StBinaryRhs (kind 0) (strip_spans y)).
-    apply pl_rhs_none; [apply stopper_op0; exact Hs|]. apply pl_parsed_done.
-Qed.
-
-Theorem roundtrip_core : forall e, core_expr e = true -> wp e = true ->
-  omap fst (parse T (print_tokens e)) = Ok (strip_spans e).
-Proof.
-  intros e Hc Hw.
-  unfold parse, print_tokens, default_fuel.
-  destruct (core_head e Hc) as (c0 & r0 & Ep & _).
-  assert (Et : print_expr e ++ [eof_tok] = c0 :: (r0 ++ [eof_tok])) by (rewrite Ep; reflexivity).
-  rewrite Et. apply run_parse_root. rewrite <- Et.
-  apply (parse_expr_ok (S (List.length (print_expr e)))); [lia|exact Hc|exact Hw| |reflexivity|intros _; reflexivity].
-  rewrite app_length. cbn [List.length]. lia.
-Qed.
